@@ -397,6 +397,24 @@ impl Plan {
                 colour: true,
                 pristine: false,
             },
+            // the memory alphabet crossed with *every* size, coordinate vector and target (thorough, few fonts)
+            "memfull" => Plan {
+                name: "memfull",
+                all_gids_below: 24,
+                sizes: ALL_SIZES.to_vec(),
+                coord_kinds: (0..8).collect(),
+                engines: vec![0, 2],
+                targets: all_targets(),
+                pedantic: vec![false, true],
+                styles: vec![PathStyle::FreeType, PathStyle::HarfBuzz],
+                mem_aligns: (0..8).collect(),
+                mem_sizes: ALL_SIZES.to_vec(),
+                mem_coord_kinds: (0..8).collect(),
+                mem_targets: all_targets(),
+                metadata: false,
+                colour: false,
+                pristine: false,
+            },
             // deviations of tables that only feed metadata queries (name, post, OS/2, CPAL) in the quick tier
             "meta" => Plan {
                 name: "meta",
